@@ -215,7 +215,7 @@ impl ParamGuard for CountVectorizerParams {
             Err(PreprocessingError::FlippedNGramBoundaries(
                 n_gram_min, n_gram_max,
             ))
-        } else if min_freq < 0. || max_freq < 0. {
+        } else if !(0. ..=1.).contains(&min_freq) || !(0. ..=1.).contains(&max_freq) {
             Err(PreprocessingError::InvalidDocumentFrequencies(
                 min_freq, max_freq,
             ))
